@@ -349,9 +349,32 @@ func exec3(r *ev.Run, st start, nIDs int, h []event, again *bool) (string, strin
 			if len(m.queue) >= queueDepth {
 				return exclude("add_queue_overflow")
 			}
+			qBefore := s.ctl.Snapshot().Queued
 			s.c.Record(&ktrace{id: tid(e.T)}, false, "")
 			m.tr[e.T].droppedEver = true
-			m.queue = append(m.queue, tid(e.T))
+			switch grown := s.ctl.Snapshot().Queued - qBefore; grown {
+			case 1:
+				m.queue = append(m.queue, tid(e.T))
+			case 0:
+				// The implementation did not hand this record to the dropped-trace filter. That is only harmless if
+				// the filter cannot forget the ID any sooner than if it had: the ID is already waiting in the add
+				// queue, or every generation a new insert would go into already holds it. Otherwise the record is
+				// remembered by nothing but the short-lived recent-drop set, although the filter has not been
+				// filled since the record.
+				held := len(gens) > 0
+				for _, g := range gens {
+					held = held && cache.VerifC31FilterHas(g.h, tid(e.T))
+				}
+				for _, x := range m.queue {
+					held = held || x == tid(e.T)
+				}
+				if !held {
+					return "", "", &seqx.Failure{Sig: "dropped:record-not-passed-to-a-filter-that-does-not-hold-it",
+						What: fmt.Sprintf("step %d %v of %v: the drop record of %s was not queued for the dropped-trace filter, and not every one of its %d generation(s) that take new inserts holds the ID (it was recorded before the newest generation existed): once the 3 s recent-drop set expires nothing answers 'dropped' for it, although the filter has not been filled to capacity since this record", step, e, h, tid(e.T), len(gens))}
+				}
+			default:
+				ev.Harness("one drop record grew the add queue by %d", grown)
+			}
 		case "fill", "topup":
 			// the first pool names that are in neither generation nor queued: a function of the state.
 			// "fill" adds a batch of fillN; "topup" adds ONE name chosen so that (given the bucket occupancy of
